@@ -23,6 +23,7 @@
   type (from the closed forms of Lemmas/Builder.lean); the rest is an induction over the tree.
 -/
 import GherkinVerif.Lemmas.AstShape
+import GherkinVerif.KDecide
 namespace GV
 
 /-! ### vocabulary of the property statements -/
@@ -995,7 +996,7 @@ theorem complete_of_validTree {G : Grammar} (hc : completeCheck G = true) (start
         · rw [completeList_append, hsh.2, completeList, completeList, complete]; rfl
 
 /-- the kernel-evaluated fact about the regenerated grammar -/
-theorem completeCheck_gen : completeCheck Gen.grammar = true := by decide +kernel
+theorem completeCheck_gen : completeCheck Gen.grammar = true := by kdecide
 
 /-- the tree of every accepted document is complete -/
 theorem complete_of_valid_gen (t : TTree) (hv : ValidTree Gen.grammar .GherkinDocument t.kinds) :
